@@ -113,7 +113,7 @@ def generate(ctx):
             yield "decode_walk", dict(gcase, start=1, strand=s, fast=False, table=["const", list(p)], slack=rng.choice([0, 1, 4]))
     ctx.exhausted["tables24xpatterns15"] = True
 
-    ks = ctx.pick([1, 2, 2, 3, 3], [1, 2, 2, 3, 3, 4, 4, 5])
+    ks = ctx.pick([1, 2, 2, 3, 3, 4], [1, 2, 2, 3, 3, 4, 4, 5, 6])
     max_len = ctx.pick(64, 256)
     for gi in range(ctx.pick(200, 1500)):
         k = rng.choice(ks)
